@@ -225,7 +225,7 @@ fn main() {
     main_for(|tier| {
         let thorough = tier == "thorough";
         let mut cfgs = vec![];
-        for r in [0u64, 1, 2, 3, 7, u64::MAX] {
+        for r in [0u64, 1, 2, 3, 7, 1 << 32, (1 << 32) + 1, u64::MAX] {
             for n in 1..=3usize {
                 cfgs.push((r, n));
             }
@@ -238,7 +238,7 @@ fn main() {
         let mut o = Opts::new(tier, if thorough { 13 } else { 9 });
         o.min_depth = 4;
         o.xcheck = tier == "thorough";
-        o.rule = "retention in {0,1,2,3,7,u64::MAX} x 1-3 initial sets; all rotation histories where each rotation is authorised by ANY installed set, with and without operator bypass, plus bounded ledger advancement; explored to fixpoint up to epoch 7 (quick) / 10 (thorough). In every reached state, for EVERY installed set: validate_proof, approve_messages of a fresh id, non-bypass rotation and bypass rotation are executed on a snapshot and compared with `epoch - e <= retention` (non-bypass rotation: e == epoch)".into();
+        o.rule = "retention in {0,1,2,3,7,2^32,2^32+1,u64::MAX} x 1-3 initial sets; all rotation histories where each rotation is authorised by ANY installed set, with and without operator bypass, plus bounded ledger advancement; explored to fixpoint up to epoch 7 (quick) / 10 (thorough). In every reached state, for EVERY installed set: validate_proof, approve_messages of a fresh id, non-bypass rotation and bypass rotation are executed on a snapshot and compared with `epoch - e <= retention` (non-bypass rotation: e == epoch)".into();
         (s, o)
     });
 }
